@@ -142,6 +142,7 @@ func (e *Exec) Open(o OpenOpts) error {
 		db.AllocSize = o.AllocSize
 	}
 	db.StrictMode = o.StrictMode
+	db.NoSync = e.Cfg.NoSync
 	e.DB = db
 	e.Opts = o
 	// which version is in force?
@@ -168,6 +169,11 @@ func (e *Exec) Close() error {
 	}
 	if e.DB == nil {
 		return nil
+	}
+	if e.Cfg.NoSync && !e.DB.IsReadOnly() {
+		if err := e.DB.Sync(); err != nil {
+			e.fail("C04", "sync-error", "DB.Sync: %v", err)
+		}
 	}
 	err := e.DB.Close()
 	e.DB = nil
